@@ -127,6 +127,13 @@ def simple_qualifiers(draw, max_keys=3):
     q = {}
     for k in keys:
         vals = draw(st.lists(st.text(alphabet="abcdefghijklmnopqrstuvwxyz0123456789 _-", min_size=1, max_size=8), min_size=1, max_size=3, unique=True))
+        if draw(st.integers(0, 4)) == 0:
+            # near-duplicate values: distinct strings that tie under a sloppy comparison (case, separators, numeric form, prefix)
+            w = vals[0]
+            fam = [w, w.upper(), w.capitalize(), w + " ", w.replace(" ", "_") + "x", "0" + w]
+            for extra in draw(st.lists(st.sampled_from(fam), min_size=1, max_size=3, unique=True)):
+                if extra not in vals and extra.strip():
+                    vals.append(extra)
         q[k] = vals
     return q
 
